@@ -33,6 +33,82 @@ Theorem C02_validate_iff_rfc_partial :
 Proof. exact validate_iff_rfc. Qed.
 Print Assumptions C02_validate_iff_rfc_partial.
 
+(* HISTORIES: a tree whose un-flagged part was validated before - the nodes not flagged LYD_NEW are free of duplicates
+   among themselves and lie in one case per choice, new data do not sit in another case than old data (no auto-deletion),
+   no LYD_DEFAULT flags (hist_ok) - and whose flagged nodes are arbitrary (added by lyd_new_*, lyd_insert_*, changed, ...):
+   lyd_validate_module succeeds iff the CONTENT satisfies every modelled rule; in particular a new node is checked for
+   duplicates against ALL siblings, validated ones included. This closes the flag side of the gap to C02_validate_iff_rfc
+   except for LYD_DEFAULT nodes and case replacement (where validation edits the tree). Fresh trees are the special case
+   in which every node is flagged. *)
+Theorem C02_history_iff_rfc_partial :
+  forall ty vs (g : vforest),
+    vschema_ok vs = true -> hist_ok vs g = true -> no_empty_np vs (map erase g) = true ->
+    rfc_types ty vs (map erase g) = true -> rfc_keys vs (map erase g) = true ->
+    (impl_validate vs g = VOk <-> rfc_valid ty vs (map erase g) = true).
+Proof. exact history_iff_rfc. Qed.
+Print Assumptions C02_history_iff_rfc_partial.
+
+Theorem C02_history_error_sound :
+  forall ty vs g e, vschema_ok vs = true -> hist_ok vs g = true ->
+    rfc_types ty vs (map erase g) = true -> rfc_keys vs (map erase g) = true ->
+    impl_validate vs g = VErr e -> class_ok ty vs (map erase g) e = false.
+Proof. exact history_error_sound. Qed.
+Print Assumptions C02_history_error_sound.
+
+(* examples: a duplicate leaf / list entry added to a validated entry is rejected, a fresh entry accepted; the
+   un-flagged duplicate of C02_validate_iff_rfc_refuted is outside hist_ok. A case that starts with implicit defaults
+   and is selected by a later sibling has its constraints enforced. *)
+Theorem C02_history_examples :
+  (hist_ok w1_schema h1_dup_leaf = true /\ impl_validate w1_schema h1_dup_leaf = VErr EDup /\
+   hist_ok w1_schema h1_dup_key = true /\ impl_validate w1_schema h1_dup_key = VErr EDup /\
+   hist_ok w1_schema h1_fresh_entry = true /\ impl_validate w1_schema h1_fresh_entry = VOk /\
+   hist_ok w1_schema w1_tree = false) /\
+  (vschema_ok ld_schema = true /\
+   impl_parse_validate ld_schema ty_any [DN 3%N [101%N] false [] []] = VErr ENoMand /\
+   impl_parse_validate ld_schema ty_any [DN 3%N [101%N] false [] []; DN 4%N [109%N] false [] []] = VOk /\
+   impl_parse_validate ld_schema ty_any [DN 4%N [109%N] false [] []; DN 5%N [97%N] false [] []; DN 5%N [98%N] false [] []] = VErr ENoMax /\
+   impl_parse_validate ld_schema ty_any [DN 6%N [98%N] false [] []] = VOk).
+Proof. exact (conj h1_facts ld_facts). Qed.
+Print Assumptions C02_history_examples.
+
+(* LYD_VALIDATE_MULTI_ERROR (impl_validate_multi: every "return on a validation error" of the modelled code replaced by
+   "record it and go on", incl. the tree edits that follow): for EVERY tree and flag assignment the first error logged is
+   the error of the run without the option; so the verdict does not depend on the option. *)
+Theorem C02_multi_error_first :
+  forall vs (g : vforest), first_err (impl_validate_multi vs g) = impl_validate vs g.
+Proof. exact multi_first_error. Qed.
+Print Assumptions C02_multi_error_first.
+
+Theorem C02_multi_error_verdict :
+  forall vs (g : vforest), impl_validate_multi vs g = [] <-> impl_validate vs g = VOk.
+Proof. exact multi_verdict. Qed.
+Print Assumptions C02_multi_error_verdict.
+
+(* example: three violations are all logged, the first is the one the plain run reports; a valid instance logs none *)
+Theorem C02_multi_error_example :
+  impl_validate_multi ex_schema (map mark_new ex_three) = [EDupCase; ENoMax; ENoMand] /\
+  impl_validate ex_schema (map mark_new ex_three) = VErr EDupCase /\
+  impl_validate_multi ex_schema (map mark_new ex_tree) = [].
+Proof. exact ex_multi. Qed.
+Print Assumptions C02_multi_error_example.
+
+(* TYPE PREDICATE identityref (one instance of the parameter type_ok): identityref_check_base with
+   lyplg_type_identity_isderived accepts exactly the identities that are derived - transitively, not the base itself -
+   from ALL the bases of the type (RFC 7950 9.10.2), for every set of base statements without a cycle (the compiler
+   rejects cycles). *)
+Theorem C02_identityref_all_bases :
+  forall (E : idedges) (bases : list N) (ident : N), IdAcyclic E ->
+    (idref_check E bases ident = true <-> forall b, In b bases -> DerivedFrom E b ident).
+Proof. exact idref_check_iff. Qed.
+Print Assumptions C02_identityref_all_bases.
+
+Theorem C02_identityref_example :
+  idref_check id_example [0; 1]%N 4%N = true /\ idref_check id_example [0; 1]%N 3%N = false /\
+  idref_check id_example [0; 1]%N 9%N = true /\ idref_check id_example [0; 1; 2]%N 10%N = true /\
+  idref_check id_example [0; 1; 2]%N 8%N = false /\ idref_check id_example [0%N] 0%N = false.
+Proof. exact id_example_facts. Qed.
+Print Assumptions C02_identityref_example.
+
 (* Regression cases of two fixed findings, as facts about the model of the current code:
    unique "p/x", p a presence container, x with a default: two entries without p are valid and accepted (ba1198e), two
    entries with p are rejected with data-not-unique (the default is in use twice);
